@@ -24,6 +24,10 @@ pub mod c08;
 #[cfg(feature = "sodium")]
 pub mod c09;
 #[cfg(feature = "sodium")]
+pub mod c10;
+#[cfg(feature = "sodium")]
+pub mod c11;
+#[cfg(feature = "sodium")]
 pub mod c12;
 #[cfg(feature = "sodium")]
 pub mod c13;
@@ -48,6 +52,10 @@ pub fn dispatch(name: &str, cx: &mut Ctx) -> bool {
         "c08" => c08::run(cx),
         #[cfg(feature = "sodium")]
         "c09" => c09::run(cx),
+        #[cfg(feature = "sodium")]
+        "c10" => c10::run(cx),
+        #[cfg(feature = "sodium")]
+        "c11" => c11::run(cx),
         #[cfg(feature = "sodium")]
         "c12" => c12::run(cx),
         #[cfg(feature = "sodium")]
